@@ -13,6 +13,7 @@ Record s_case := {
   sc_exp : list (list float * float);
   sc_pow : list float;
   sc_massdiag : option (list float);       (* generate_momentum = sqrt-diag * z, None = z *)
+  sc_genmom : list (list float * list float);   (* or: logged (draw, momentum) pairs of the real mass matrix *)
   sc_nsp : list float; sc_stepvec : option (list float);
   sc_tune : bool; sc_target : float; sc_min : float;
   sc_integ : nat; sc_lits : list float; sc_steps : nat;
@@ -57,9 +58,12 @@ Definition sc_run (c : s_case) :=
   let kgr := lookup (sc_kgrad c) [] in
   let expf := fun x => lookup (sc_exp c) nan [x] in
   let powf := fun i => nth i (sc_pow c) nan in
-  let genmom := fun z => match sc_massdiag c with
-                         | None => z
-                         | Some dg => map2 PrimFloat.mul (map PrimFloat.sqrt dg) z end in
+  let genmom := fun z => match sc_genmom c with
+                         | _ :: _ => lookup (sc_genmom c) [] z
+                         | [] => match sc_massdiag c with
+                                 | None => z
+                                 | Some dg => map2 PrimFloat.mul (map PrimFloat.sqrt dg) z end
+                         end in
   let corr := fun (q p : list float) => (q, p) in
   let tu := @Build_tuning NumF (sc_tune c) (sc_target c) (sc_min c) in
   let sm := if sc_hmc c
@@ -102,9 +106,12 @@ Definition sc_fault_ok (c : s_case) (o : f_obs) : bool :=
   let kgr := lookup (sc_kgrad c) [] in
   let expf := fun x => lookup (sc_exp c) nan [x] in
   let powf := fun i => nth i (sc_pow c) nan in
-  let genmom := fun z => match sc_massdiag c with
-                         | None => z
-                         | Some dg => map2 PrimFloat.mul (map PrimFloat.sqrt dg) z end in
+  let genmom := fun z => match sc_genmom c with
+                         | _ :: _ => lookup (sc_genmom c) [] z
+                         | [] => match sc_massdiag c with
+                                 | None => z
+                                 | Some dg => map2 PrimFloat.mul (map PrimFloat.sqrt dg) z end
+                         end in
   let corr := fun (q p : list float) => (q, p) in
   let tu := @Build_tuning NumF (sc_tune c) (sc_target c) (sc_min c) in
   let sm := if sc_hmc c
